@@ -29,10 +29,18 @@ func TestVerifC31(t *testing.T) {
 	defer r.Finish()
 	r.Rule("A: all strings of length 2..L over the alphabet that pass Type.IsValid, plus long types a^k-v1a^m for every k at lengths {7,8,20,99,100}, each x 6 versions; " +
 		"non-trivial = the printed hint contains more than one '-v<digit>' match (type or prerelease carries the separator pattern). " +
-		"B: BFS over event histories on a fresh CompatibleSet (cache arg 0, 1, 64), dedup on the dump of the real set's maps + cache; non-trivial = a lookup whose model answer is 'found'")
-	r.Assume("util.Version values are built by util.MustNewVersion (canonical vMAJOR.MINOR.PATCH[-pre][+meta] strings); Masterminds/semver and x/mod/semver are trusted")
+		"B: BFS over event histories on a fresh CompatibleSet (cache arg 0, 1, 64), dedup on the dump of the real set's maps + cache; non-trivial = a lookup whose model answer is 'found'. " +
+		"C: type lengths around MinTypeLength/MaxTypeLength x every printed version length from 6 to MaxVersionLength+2, 1-7 type shapes and 3-8 version shapes per length, each version also with its last character changed; non-trivial = a valid hint with the type or the version at its maximum length. " +
+		"D: BFS over histories of add/find/findstr/findtype/findtypestr/parse over one alphabet of strings that are hint strings, types, both or neither, fresh set (cache arg 0, 1) and fresh parse cache per history, dedup on the dump of set maps + set cache + parse cache; non-trivial = a lookup whose stateless reference answer is 'found'. " +
+		"E: all ordered pairs over 35 versions (cores, numeric / alphanumeric / mixed prerelease identifiers of equal and different length and count, build metadata) through util.Version.Compare against the semver 2.0 precedence written in the harness; non-trivial = the pair is decided inside the prerelease. " +
+		"F: every sequence of 1..3 (quick) / 1..4 (thorough) different versions out of 8 / 12 prerelease / release / build versions of one type and major registered in a fresh set (cache arg 0, 1), then 4 lookups; non-trivial = more than one entry registered")
+	r.Assume("util.Version values are built by util.MustNewVersion (canonical vMAJOR.MINOR.PATCH[-pre][+meta] strings); Masterminds/semver and x/mod/semver are trusted for parsing and validation, not for ordering: the model orders versions by the semver 2.0 precedence rules written in the harness")
 
+	c31VersionCompare(r)
+	c31PreSet(r)
 	c31SetBFS(r)
+	c31LookupHistories(r)
+	c31Bounds(r)
 	c31Encoding(r)
 }
 
@@ -208,7 +216,9 @@ type c31Entry struct {
 	v  string
 }
 
-// c31Model is the cache-free reference: every successfully added (hint, value).
+// c31Model is the cache-free reference: every successfully added (hint, value);
+// "highest registered version" is decided by the semver 2.0 precedence written
+// in the harness (c31RefCompare), independent of the code's own Compare.
 type c31Model struct {
 	entries []c31Entry
 }
@@ -231,12 +241,27 @@ func (m *c31Model) best(t Type, major uint64, withMajor bool) (c31Entry, bool) {
 			continue
 		}
 
-		if !found || e.ht.Version().Compare(best.ht.Version()) > 0 {
+		// the order of versions is the semver precedence of the harness
+		// (c31_semver_test.go), not util.Version.Compare
+		if !found || c31RefCmp(e.ht.Version().String(), best.ht.Version().String()) > 0 {
 			best, found = e, true
 		}
 	}
 
 	return best, found
+}
+
+// equivalent: the value is the wanted one, or the one of a registered entry of
+// the same type and the same precedence (versions that differ in build metadata
+// only; the set refuses the second of them, so this is a safety net).
+func (m *c31Model) equivalent(value string, want c31Entry) bool {
+	if value == want.v {
+		return true
+	}
+
+	e, ok := m.registered(value)
+
+	return ok && e.ht.Type() == want.ht.Type() && c31RefCmp(e.ht.Version().String(), want.ht.Version().String()) == 0
 }
 
 func (m *c31Model) registered(v string) (c31Entry, bool) {
@@ -423,7 +448,7 @@ func c31Compare(r *vlib.Run, path string, ev, prev c31Event, m *c31Model, got st
 	var class string
 
 	switch {
-	case found == wfound && (!found || got == want.v):
+	case found == wfound && (!found || m.equivalent(got, want)):
 		if found {
 			r.Outcome(ev.op + "/found")
 		} else {
@@ -442,7 +467,7 @@ func c31Compare(r *vlib.Run, path string, ev, prev c31Event, m *c31Model, got st
 	default:
 		class = "wrong-entry"
 
-		if e, ok := m.registered(got); ok && e.ht.Type() == want.ht.Type() && e.ht.Version().Compare(want.ht.Version()) < 0 {
+		if e, ok := m.registered(got); ok && e.ht.Type() == want.ht.Type() && c31RefCmp(e.ht.Version().String(), want.ht.Version().String()) < 0 {
 			class = "lower-version-returned"
 		}
 	}
